@@ -102,8 +102,20 @@ func (s *MySQLSequence) getSeqFromDB() error {
 		return errors.New(fmt.Sprintf("invalid mycat sequence value %s %s", s.seqName, ret))
 	}
 
-	curr, _ := strconv.ParseInt(ns[0], 10, 64)
-	incr, _ := strconv.ParseInt(ns[1], 10, 64)
+	// a missing sequence row makes mycat_seq_nextval return its default '-999999999,null';
+	// that, any non-numeric field or a non-positive increment must fail the request:
+	// using such a row would hand out the same value again and again
+	curr, err := strconv.ParseInt(strings.TrimSpace(ns[0]), 10, 64)
+	if err != nil {
+		return fmt.Errorf("invalid mycat sequence value %s %s: %v", s.seqName, ret, err)
+	}
+	incr, err := strconv.ParseInt(strings.TrimSpace(ns[1]), 10, 64)
+	if err != nil {
+		return fmt.Errorf("invalid mycat sequence increment %s %s: %v", s.seqName, ret, err)
+	}
+	if incr <= 0 {
+		return fmt.Errorf("invalid mycat sequence increment %s %s: must be positive", s.seqName, ret)
+	}
 	s.max = curr + incr
 	s.curr = curr
 	return nil
